@@ -26,13 +26,16 @@ from tools.gen import libgen
 LEVEL = "proof"
 MANIFEST = dict(
     category="proof",
-    text="Lean 4 theorems (32, no _partial statements). "
+    text="Lean 4 theorems (34, no _partial statements). "
          "(1) Unbounded: for every list of (argument, buf_args) the C prototype classes built as in Wrapc.build_proto_list and the "
          "Fortran dummy classes built as in Wrapf.build_arg_list_interface have the same length, the same number of dummy names, and "
          "are pairwise interoperable (Fortran 2018 18.3; list induction from a per-buf_arg lemma) under per-argument side conditions "
          "(itemOK) whose necessity is shown by decide witnesses (+value on a pointer; a CFI entry reached without a descriptor); for "
          "every parameter list of a callback the abstract interface (dump_abstract_interfaces) is pairwise interoperable with the C "
-         "function-pointer parameter list and its result; for every member list of a user struct the C copy (Wrapc.wrap_struct) and the "
+         "function-pointer parameter list and its result; for every function the C return type chosen by wrap_function (forced "
+         "return_type, deref(scalar), declarator) and the result declaration or `subroutine` chosen by wrap_function_interface "
+         "(f_result_decl, return_cptr, return_type, deref, bind_c) are interoperable under resultOK (result_interop); for every "
+         "member list of a user struct the C copy (Wrapc.wrap_struct) and the "
          "bind(C) derived type (Wrapf.wrap_struct) are field-wise interoperable. "
          "(2) Table theorems (decide +kernel) over data regenerated from the working tree on every run: the wrapc and wrapf statement "
          "lookup paths reach the same entry for all 22,680 (sgroup, spointer, intent, suffix, deref, cdesc, specialize) combinations per "
@@ -47,8 +50,13 @@ MANIFEST = dict(
     note="Ties: (T) tools/extract_interop.py recomputes all tables with the real lookup_fc_stmts / typemaps / helper texts and fails "
          "loudly on a template it cannot classify; (D) every call of build_proto_list / build_arg_list_interface and every wrap_struct on "
          "the whole upstream corpus + generated libraries is observed in-process and the declarations it appends are compared with the "
-         "model (driver drv_interop); the two call sequences (argument, buf_args, entry) are compared with each other. The callback model "
-         "has no per-call tie (oracle only). Oracle (implementation only, Python table independent of the model): every bind(C) name is "
+         "model (driver drv_interop); the two call sequences (argument, buf_args, entry) are compared with each other. The function result (C_return_type vs the emitted "
+         "result declaration) and every callback (C function-pointer type vs the emitted abstract interface, parameters and "
+         "result) are compared with the model in the same way; functions whose arguments/result do not satisfy the theorems' "
+         "side conditions are listed in the evidence (notes.side_condition_false: today only example.yaml's user-asserted "
+         "SidreLength typemap). Still oracle-only (not modelled in Lean): function-pointer members of structs, the helper "
+         "capsule destructor prototype written by wrapc, user-overridden C_prototype / F_C_arguments, abstract interfaces nested "
+         "inside callbacks. Oracle (implementation only, Python table independent of the model): every bind(C) name is "
          "defined by a generated prototype/definition or by the YAML declaration (language c), same argument count, names not permuted, "
          "pairwise interoperable arguments and result, callbacks against their abstract interface, struct / derived-type pairs field by "
          "field (typedefs and structs declared in the YAML are resolved), emitted type-code tables; thorough: gfortran -fc-prototypes of "
@@ -74,6 +82,8 @@ THEOREMS = {
         "Shroud.Interop.callback_length",
         "Shroud.Interop.callback_result_interop",
         "Shroud.Interop.callback_bindc_only_not_interop",
+        "Shroud.Interop.result_interop",
+        "Shroud.Interop.result_bad_not_interop",
         "Shroud.Interop.struct_fields_interop",
         "Shroud.Interop.struct_fields_length",
         "Shroud.Interop.struct_member_old_not_interop",
@@ -117,6 +127,7 @@ class Recorder:
         self.f = {}
         self.order = []
         self.structs = []
+        self.callbacks = {}
         self.nodes = {}
         self._cur_c = None
         self._cur_f = None
@@ -143,6 +154,7 @@ class Recorder:
                     fd = node.fmtdict
                     r["C_name"] = getattr(fd, "C_name", None)
                     r["C_prototype"] = getattr(fd, "C_prototype", None)
+                    r["C_return_type"] = getattr(fd, "C_return_type", None)
 
         def build_proto_list(self, fmt, ast, intent_blk, buf_args, proto_list, need_wrapper, name=None):
             r = rec._cur_c
@@ -157,6 +169,7 @@ class Recorder:
         def wrap_function_interface(self, cls, node, fileinfo):
             r = {"calls": [], "this": None}
             rec._cur_f = r
+            n0 = len(fileinfo.c_interface)
             try:
                 return o_wi(self, cls, node, fileinfo)
             finally:
@@ -164,6 +177,18 @@ class Recorder:
                 rec.f[id(node)] = r
                 rec.nodes[id(node)] = node
                 r["F_C_name"] = getattr(node.fmtdict, "F_C_name", None)
+                r["F_C_subprogram"] = getattr(node.fmtdict, "F_C_subprogram", None)
+                r["F_result"] = getattr(node.fmtdict, "F_result", None)
+                r["iface_lines"] = [x for x in fileinfo.c_interface[n0:] if isinstance(x, str)]
+
+        o_ai = wrapf.Wrapf.add_abstract_interface
+        self._saved_ai = o_ai
+
+        def add_abstract_interface(self, node, arg, fileinfo):
+            name = o_ai(self, node, arg, fileinfo)
+            rec.callbacks.setdefault(name, (node, arg))
+            return name
+        wrapf.Wrapf.add_abstract_interface = add_abstract_interface
 
         def build_arg_list_interface(self, node, fileinfo, fmt, ast, intent_blk, buf_args, modules, imports,
                                      arg_c_names, arg_c_decl, intent=None):
@@ -195,6 +220,7 @@ class Recorder:
         W.wrap_function, W.build_proto_list = o_wf, o_bp
         F.wrap_function_interface, F.build_arg_list_interface = o_wi, o_bi
         F.wrap_struct = self._saved_ws
+        F.add_abstract_interface = self._saved_ai
         return False
 
 
@@ -289,9 +315,8 @@ def fbase_codes(text, env):
     return (FB[base[0]], base[1])
 
 
-def encode_item(ccall, fcall, env):
-    """(argument, buf_args) as the model sees it -> driver token.  Reads exactly what the two builders read."""
-    ast = ccall["ast"]
+def encode_arg(ast, env, fcall=None):
+    """The argument record of the model (Arg) for one declaration: exactly what the builders read from it."""
     attrs = ast.attrs
     tm = ast.typemap
     ntm = ast.template_arguments[0].typemap if ast.template_arguments else tm
@@ -305,9 +330,16 @@ def encode_item(ccall, fcall, env):
              (attrs["rank"] is not None and attrs["rank"] > 0) or bool(attrs["allocatable"])
     dim = (fcall or {}).get("f_c_dimension") or ""
     fcdim = 0 if dim == "" else (2 if (".." in dim or ":" in dim) else 1)
-    a = [cb[0], cb[1], fb[0], fb[1], ft[0], ft[1], scb[0], scb[1], sfb[0], sfb[1], ptr,
-         1 if attrs["value"] else 0, 1 if farray else 0, 1 if attrs["assumedtype"] else 0,
-         1 if (attrs["rank"] or attrs["dimension"]) else 0, 1 if ast.is_function_pointer() else 0, fcdim]
+    return [cb[0], 1 if cb[0] in (4, 5) else cb[1], fb[0], 1 if fb[0] == 5 else fb[1], ft[0], 1 if ft[0] == 5 else ft[1],
+            scb[0], 1 if scb[0] in (4, 5) else scb[1], sfb[0], 1 if sfb[0] == 5 else sfb[1], ptr,
+            1 if attrs["value"] else 0, 1 if farray else 0, 1 if attrs["assumedtype"] else 0,
+            1 if (attrs["rank"] or attrs["dimension"]) else 0, 1 if ast.is_function_pointer() else 0, fcdim]
+
+
+def encode_item(ccall, fcall, env):
+    """(argument, buf_args) as the model sees it -> driver token.  Reads exactly what the two builders read."""
+    ast = ccall["ast"]
+    a = encode_arg(ast, env, fcall)
     bufs = ccall["bufs"]
     blk = ccall["blk"]
     cd = fd = "-"
@@ -441,8 +473,137 @@ def tie_structs(ctx, res, replay, drv_lines, drv_meta):
         drv_lines.append("st " + (";".join(mems) if mems else "~"))
 
 
-def tie_compare(ctx, drv_lines, drv_meta, out):
+def _rt_class(text, tm, env):
+    """A statement entry's return_type template -> C class token ('-' if absent)."""
+    if not text:
+        return "-"
+    t = text.replace("{c_type}", tm.c_type or "void").replace("{cxx_type}", tm.cxx_type or "void")
+    if "{" in t:
+        raise TranslatorError("return_type template %r" % text)
+    return c_code(ip.parse_c_param(t, want_name=False), env)
+
+
+def tie_results(ctx, res, replay, drv_lines, drv_meta):
+    """Model resultC / resultF for every wrapped function vs C_return_type and the emitted result declaration."""
+    from shroud import typemap as stypemap
+    rec, env = res["rec"], res["env"]
+    for nid in rec.order:
+        node = rec.nodes[nid]
+        cr, fr = rec.c[nid], rec.f.get(nid)
+        if fr is None or not cr["calls"] or not fr["calls"] or cr.get("C_return_type") is None:
+            continue
+        ast = node.ast
+        if cr["calls"][0]["ast"] is not ast or fr["calls"][0]["ast"] is not ast:
+            continue
+        cblk, fblk = cr["calls"][0]["blk"], fr["calls"][0]["blk"]
+        fname = getattr(node, "declgen", str(ast.name))
+        meta = {"kind": "result", "lib": res["tag"], "function": "result of " + fname, "replay": dict(replay, function=fname)}
+        try:
+            tm = ast.typemap
+            ntm = ast.template_arguments[0].typemap if ast.template_arguments else tm
+            cb = cbase_codes(ntm.c_type, env) or (CB["void"], 0)
+            fb = fbase_codes(ntm.f_c_type or ntm.f_type, env) or (FB["cptr"], 0)
+            attrs = ast.attrs
+            farray = (tm.base == "vector") or (ntm.base == "string" and not attrs["value"]) or bool(attrs["dimension"]) or \
+                     (attrs["rank"] is not None and attrs["rank"] > 0) or bool(attrs["allocatable"])
+            deref = ast.metaattrs["deref"]
+            retc = _rt_class(cblk.return_type, tm, env)
+            hasretf = 1 if fblk.return_type else 0
+            retf = "-"
+            if fblk.return_type:
+                t2 = stypemap.lookup_type(fblk.return_type)
+                if t2 is not None and t2.f_type:
+                    c2 = fbase_codes(t2.f_type, env)
+                    retf = "%d.%d" % (c2[0], 1 if c2[0] == 5 else c2[1])
+            rdecl = "-"
+            if fblk.f_result_decl:
+                tt = parse_f_template(fblk.f_result_decl[0])
+                if tt[0] != "fixed":
+                    raise TranslatorError("f_result_decl %r" % fblk.f_result_decl[0])
+                rdecl = f_code(tt[1], env)
+            line = "rs %d %d.%d %d.%d %d %d %d %d %s %d %s %d %s" % (
+                1 if ast.get_subprogram() == "subroutine" else 0, cb[0], 1 if cb[0] in (4, 5) else cb[1], fb[0], 1 if fb[0] == 5 else fb[1],
+                ast.is_indirect(), 1 if farray else 0, 1 if deref == "scalar" else 0, 1 if deref in ("pointer", "allocatable", "raw") else 0,
+                retc, hasretf, retf, 1 if fblk.return_cptr else 0, rdecl)
+            cact = c_code(ip.parse_c_param(cr["C_return_type"].replace("\t", " "), want_name=False), env)
+            fact = "-"
+            if fr.get("F_C_subprogram") == "function":
+                want = (fr.get("F_result") or "").lower()
+                fact = None
+                seen_implicit = False
+                for ln in fr.get("iface_lines", []):
+                    st = ln.strip()
+                    if st.lower().startswith("implicit none"):
+                        seen_implicit = True
+                        continue
+                    if not seen_implicit or st.lower().startswith("end "):
+                        continue
+                    try:
+                        for nm, dcl in ip.parse_f_decl(st):
+                            if nm == want:
+                                fact = f_code(dcl, env)
+                    except ip.ParseError:
+                        pass
+                if fact is None:
+                    raise TranslatorError("result declaration of %s not found" % want)
+        except (ip.ParseError, TranslatorError) as e:
+            meta["error"] = "cannot classify the result: %s" % e
+            drv_meta.append(meta)
+            drv_lines.append("io 1.4.0 1.4.1.0")
+            continue
+        meta.update(cact=cact, fact=fact, entries=(getattr(cblk, "name", "?"), getattr(fblk, "name", "?")))
+        ctx.count(1)
+        ctx.nontrivial(("result", getattr(cblk, "name", "?"), getattr(fblk, "name", "?"), cact, fact))
+        drv_meta.append(meta)
+        drv_lines.append(line)
+
+
+def tie_callbacks(ctx, res, replay, drv_lines, drv_meta):
+    """Model cbProto / cbIface for every callback argument vs the C function-pointer type and the abstract interface."""
+    rec, env, d = res["rec"], res["env"], res["outdir"]
+    if not rec.callbacks:
+        return
+    protos, defs, structs, defines, uprotos, modules = read_outputs(d)
+    abstract = {}
+    for fn, (ifaces, types, params) in modules.items():
+        for it in ifaces:
+            if it["bind"] is None:
+                abstract[it["fname"].lower()] = it
+    for name, (node, arg) in sorted(rec.callbacks.items()):
+        meta = {"kind": "callback", "lib": res["tag"], "function": "callback %s" % name, "replay": dict(replay, callback=name)}
+        try:
+            items = [",".join(str(x) for x in encode_arg(p, env)) for p in arg.params]
+            cp = ip.parse_c_param(arg.gen_arg_as_c())
+            if "fp_params" not in cp:
+                raise TranslatorError("function pointer type of %s: %s" % (name, cp.get("fp_error")))
+            cact = [c_code(q, env) for q in cp["fp_params"]]
+            ai = abstract.get(name.lower())
+            if ai is None or ai["errors"]:
+                raise TranslatorError("abstract interface %s not found/parsable" % name)
+            fact = [f_code(ai["decls"][a], env) for a in ai["args"]]
+            resreq, cres, fres = "", None, None
+            if arg.get_subprogram() == "function":
+                tm = arg.typemap
+                rcb = cbase_codes(tm.c_type, env) or (CB["void"], 0)
+                rfb = fbase_codes(tm.f_c_type or tm.f_type, env) or (FB["cptr"], 0)
+                resreq = " %d.%d.%d.%d.%d" % (rcb[0], 1 if rcb[0] in (4, 5) else rcb[1], arg.is_indirect(), rfb[0], 1 if rfb[0] == 5 else rfb[1])
+                cres = c_code(cp["fp_ret"], env)
+                fres = f_code(ai["decls"][ai["result"]], env)
+        except (ip.ParseError, TranslatorError, KeyError) as e:
+            meta["error"] = "cannot classify the callback: %s" % e
+            drv_meta.append(meta)
+            drv_lines.append("io 1.4.0 1.4.1.0")
+            continue
+        meta.update(cact=cact, fact=fact, cres=cres, fres=fres)
+        ctx.count(1)
+        ctx.nontrivial(("callback-params", len(items), cres, fres))
+        drv_meta.append(meta)
+        drv_lines.append("cb " + (";".join(items) if items else "~") + resreq)
+
+
+def tie_compare(ctx, drv_lines, drv_meta, out, notok=None):
     bad = []
+    notok = notok if notok is not None else []
     for line, meta, o in zip(drv_lines, drv_meta, out):
         if meta.get("kind") == "struct" and "error" not in meta:
             m = re.match(r"^C ?(.*)#F ?(.*)$", o)
@@ -455,6 +616,26 @@ def tie_compare(ctx, drv_lines, drv_meta, out):
         if "error" in meta:
             bad.append({"function": meta["function"], "lib": meta["lib"], "what": meta["error"]})
             continue
+        if meta.get("kind") == "result":
+            m = re.match(r"^C (\S+)#F (\S+)#ok=(\d)$", o)
+            if not m:
+                bad.append({"function": meta["function"], "lib": meta["lib"], "what": "driver: " + o, "request": line})
+            elif m.group(1) != meta["cact"] or m.group(2) != meta["fact"]:
+                bad.append({"function": meta["function"], "lib": meta["lib"], "entries": meta["entries"], "model_C": m.group(1),
+                            "code_C": meta["cact"], "model_F": m.group(2), "code_F": meta["fact"], "request": line})
+            elif m.group(3) != "1":
+                notok.append({"function": meta["function"], "lib": meta["lib"], "request": line, "replay": meta["replay"]})
+            continue
+        if meta.get("kind") == "callback":
+            m = re.match(r"^P ?([^#]*)#F ?([^#]*)(?:#R (\S+) (\S+))?$", o)
+            if not m:
+                bad.append({"function": meta["function"], "lib": meta["lib"], "what": "driver: " + o, "request": line})
+            elif m.group(1).split() != meta["cact"] or m.group(2).split() != meta["fact"] or \
+                    (m.group(3), m.group(4)) != (meta["cres"], meta["fres"]):
+                bad.append({"function": meta["function"], "lib": meta["lib"], "model_C": m.group(1).split(), "code_C": meta["cact"],
+                            "model_F": m.group(2).split(), "code_F": meta["fact"], "model_result": (m.group(3), m.group(4)),
+                            "code_result": (meta["cres"], meta["fres"]), "request": line})
+            continue
         if not meta["same_seq"]:
             bad.append({"function": meta["function"], "lib": meta["lib"], "what": meta["detail"]})
             continue
@@ -463,6 +644,8 @@ def tie_compare(ctx, drv_lines, drv_meta, out):
             bad.append({"function": meta["function"], "lib": meta["lib"], "what": "driver: " + o, "request": line})
             continue
         mp, mf = m.group(1).split(), m.group(2).split()
+        if m.group(3) != "1":
+            notok.append({"function": "arguments of " + meta["function"], "lib": meta["lib"], "request": line, "replay": meta["replay"]})
         this = 1 if meta["this_c"] else 0
         if bool(meta["this_c"]) != bool(meta["this_f"]):
             bad.append({"function": meta["function"], "lib": meta["lib"], "what": "this argument on one side only"})
@@ -1197,6 +1380,8 @@ def process(ctx, tag, yaml_path, options, language, wv, replay, stats, drv_lines
         res["language_cxx"] = bool(glob.glob(os.path.join(res["outdir"], "*.cpp")) or glob.glob(os.path.join(res["outdir"], "*.cc")))
         tie_library(ctx, res, replay, drv_lines, drv_meta)
         tie_structs(ctx, res, replay, drv_lines, drv_meta)
+        tie_results(ctx, res, replay, drv_lines, drv_meta)
+        tie_callbacks(ctx, res, replay, drv_lines, drv_meta)
         oracle_library(ctx, res, replay, stats)
         if thorough:
             compiler_checks(ctx, res, replay, stats)
@@ -1238,13 +1423,15 @@ def run(ctx):
         "Python statement of the 18.3 table",
         "tools/extract_interop.py: classification of c_arg_decl / f_arg_decl / f_result_decl templates, helper struct and type texts, "
         "interface signature of an entry",
-        "hand-written models Model/Interop.lean of build_proto_list / build_arg_list_interface / wrap_struct (validated per call on "
-        "corpus + generated libraries) and of dump_abstract_interfaces (oracle only)",
+        "hand-written models Model/Interop.lean of build_proto_list / build_arg_list_interface / wrap_struct / the result-type "
+        "choice of wrap_function and wrap_function_interface / dump_abstract_interfaces (all validated per call on corpus + "
+        "generated libraries)",
         "gcc 12 / gfortran 12 (thorough tier cross-checks)",
     ]
-    ctx.cov["rule"] = ("tie: one evaluation per wrapped function (model protoList/ifaceList vs the declarations the two builders "
-                       "appended; same (argument, buf_args, entry) sequence on both sides) and per wrapped struct (structC/structF vs the "
-                       "emitted struct / derived type); oracle: one per bind(C) interface body, callback pair, struct pair and type-code "
+    ctx.cov["rule"] = ("tie: one evaluation per wrapped function for the arguments (model protoList/ifaceList vs the declarations the two "
+                       "builders appended; same (argument, buf_args, entry) sequence on both sides), one for its result (resultC/resultF vs "
+                       "C_return_type and the emitted result declaration), one per wrapped struct (structC/structF vs the emitted struct / "
+                       "derived type), one per callback (cbProto/cbIface/cbResF vs the function-pointer type and the abstract interface); oracle: one per bind(C) interface body, callback pair, struct pair and type-code "
                        "name, thorough also one per prototype seen by gfortran -fc-prototypes; non-trivial = distinct (buf_arg kind, "
                        "statement entry) reached, distinct (C class, pointer depth, Fortran class, value, shape) pairs, struct sizes, "
                        "callback positions")
@@ -1253,8 +1440,8 @@ def run(ctx):
         "a user-written +value on a pointer argument and a user-overridden C_prototype / F_C_arguments are outside the admitted inputs",
         "C functions of the wrapped library that are bound directly (language c) are taken to have the signature written in the YAML "
         "decl; typedefs and structs declared in the YAML are taken as declared there",
-        "abstract interfaces of callbacks: compared with the C function-pointer type by the oracle on every emitted interface; the "
-        "Lean theorem callback_interop is about the model of dump_abstract_interfaces, which has no per-call tie (oracle only)",
+        "not modelled in Lean (oracle only): function-pointer members of structs, the capsule destructor prototype written by wrapc, "
+        "abstract interfaces nested inside callbacks, user-overridden C_prototype / F_C_arguments",
         "a scalar char result with a deref attribute is rejected by Shroud (exception in result_as_arg_paths_agree)",
         "types defined only in another library (forward.yaml: tutorial / struct types, example.yaml: SIDRE_SidreLength) are not "
         "resolved; they are listed under notes.oracle.unresolved_names",
@@ -1298,8 +1485,14 @@ def run(ctx):
         # ---- model side
         if ok and common.Driver("drv_interop").available():
             out = common.Driver("drv_interop").run(drv_lines)
-            bad = tie_compare(ctx, drv_lines, drv_meta, out)
+            notok = []
+            bad = tie_compare(ctx, drv_lines, drv_meta, out, notok)
             ctx.note("tie_functions", len(drv_lines))
+            ctx.note("tie_kinds", {k: sum(1 for m in drv_meta if m.get("kind", "function") == k)
+                                   for k in ("function", "struct", "result", "callback")})
+            # functions whose arguments / result do not satisfy the hypotheses itemOK / resultOK of the theorems (the
+            # theorems say nothing about them; the oracle decides)
+            ctx.note("side_condition_false", [x["function"] + " @" + x["lib"] for x in notok][:10])
             if bad:
                 ctx.tie_broken("proto/iface model correspondence", bad[:6])
         else:
